@@ -1,5 +1,6 @@
 import LokiModel.C28.Enc
 import LokiModel.C28.Model
+import LokiModel.C28.ParamModel
 open LokiModel.Fir LokiModel.C28 Sexp
 
 def mapUnits (f : List Stmt → List Stmt) (p : Program) : Program :=
@@ -10,33 +11,6 @@ def classesOf (m : Mode) (p : Program) : Sexp :=
         (if KnownPrint m p then [atom "inline-print-not-substituted"] else []) ++
         (if KnownReeval m p then [atom "inline-actual-reevaluated"] else []) ++
         (if KnownFreshClash m p then [atom "inline-fresh-name-clash"] else []))
-
-mutual
-def substParamS (m : List (String × Ex)) : Stmt → Stmt
-  | .assign l r => .assign (substM m l) (substM m r)
-  | .doLoop v lo hi st body => .doLoop v (substM m lo) (substM m hi) (substMO m st) (substParamSs m body)
-  | .while c b => .while (substM m c) (substParamSs m b)
-  | .ifte c t e => .ifte (substM m c) (substParamSs m t) (substParamSs m e)
-  | .select e cs d => .select (substM m e) (substParamCs m cs) (substParamSs m d)
-  | .assoc bs body => .assoc (bs.map fun b => (b.1, substM m b.2)) (substParamSs m body)
-  | .callSub f args => .callSub f (substMs m args)
-  | s => s
-def substParamSs (m : List (String × Ex)) : List Stmt → List Stmt
-  | [] => []
-  | s :: ss => substParamS m s :: substParamSs m ss
-def substParamCs (m : List (String × Ex)) : List (List Int × List Stmt) → List (List Int × List Stmt)
-  | [] => []
-  | (vs, b) :: cs => (vs, substParamSs m b) :: substParamCs m cs
-end
-
-/-- `inline_constant_parameters(external_only=False)` on one unit: every PARAMETER name replaced by its initial value in the
-body and in the other declarations, the PARAMETER declarations with a literal value dropped (PRINT is not substituted) -/
-def paramUnit (u : LokiModel.Fir.Unit) : LokiModel.Fir.Unit :=
-  let m : List (String × Ex) := u.decls.filterMap fun d => d.param.map fun e => (d.name, e)
-  let isLit : Ex → Bool := fun e => match e with | .lit _ => true | _ => false
-  let keep := u.decls.filter fun d => match d.param with | some e => !isLit e | none => true
-  { u with decls := keep.map (fun d => { d with dims := d.dims.map fun b => (substM m b.1, substM m b.2) }),
-           body := substParamSs m u.body }
 
 def step : Sexp → Option Sexp
   | list (atom "sub" :: atom mode :: prog :: _) => do
